@@ -13,7 +13,7 @@ use std::collections::BTreeSet;
 pub const PROP: Prop = Prop { id: "C10", spec, run, replay };
 
 fn max_nodes(t: Tier) -> usize {
-    t.pick(3, 5)
+    t.pick(4, 5)
 }
 
 const EXPRS: [&str; 10] = ["always", "name-a", "name-b", "not-name-a", "type-f", "type-d", "type-l", "f-or-l", "prune-a-or-true", "name-a-or-type-d"];
